@@ -103,7 +103,7 @@ def Checks.add (c : Checks) (ok : Bool) (what : String) : Checks := if ok then c
 def checkRun (x : Input) (r : Run) : Checks :=
   let c : Checks := {}
   let winRec (id : Nat) (s : Str) : Bool := r.names.any fun p => p.1.id == id && p.1.platform == 3 && p.2 == s && !p.2.isEmpty
-  let variable := !x.labels.isEmpty
+  let isVariable := !x.labels.isEmpty
   let insts := effInsts x
   -- source records survive
   let c := c.add (x.names.all fun p => r.names.contains p) "source-record-lost"
@@ -113,7 +113,7 @@ def checkRun (x : Input) (r : Run) : Checks :=
   let c := c.add (fresh.all fun p => (fresh.filter fun q => q.2 == p.2).length == 1 &&
                     !(x.names.any fun q => 256 ≤ q.1.id && q.2 == p.2)) "string-allocated-twice"
   let c := c.add (!r.err) "static-metadata-error"
-  if !variable then
+  if !isVariable then
     let c := c.add (resEq r.fvar .noTable && resEq r.stat .noTable) "static-font-has-fvar"
     c.add (fresh.isEmpty) "static-font-allocates-names"
   else
@@ -144,14 +144,14 @@ def checkRun (x : Input) (r : Run) : Checks :=
 /-- ids the fallback rules speak about, plus whatever the source added -/
 def checkFallback (b : Builder) (vendor : Str) (built : Table) : Bool :=
   let spec := fallbackSpec b.get b.major b.minor vendor
-  let ids := ([1, 2, 3, 4, 5, 6, 16, 17] ++ b.names.map (·.1)).eraseDups
+  let ids : List Nat := ([1, 2, 3, 4, 5, 6, 16, 17] ++ b.names.map (fun (p : Nat × Str) => p.1)).eraseDups
   -- every id: the (unique) record is what the rules say; no other records
   (ids.all fun id =>
-    let recs := built.filter fun p => p.1.id == id
+    let recs := built.filter fun (p : NameKey × Str) => p.1.id == id
     match spec.get b.get id with
     | none => recs.isEmpty
     | some v => recs == [(NameKey.new id v, v)]) &&
-  built.all fun p => ids.contains p.1.id
+  built.all fun (p : NameKey × Str) => ids.contains p.1.id
 
 def handle : Handler := fun s =>
   let r : Option Verdict := do
@@ -288,13 +288,16 @@ def handleE2E : Handler := fun s =>
           let c := c.add (f.instances.length == d.instances.length) "instance-count"
           let defaults := varAxes.map (·.default)
           let hasPs := instps.any Option.isSome
-          let c := c.add ((f.instances.zip (d.instances.zip instps)).all fun ((sub, ps, coords), ((_, st, _), p)) =>
-            let atDefault := coords == defaults
-            winRec sub (toS st) && (256 ≤ sub || (atDefault && isSub sub)) &&
-            (match ps, p with
-             | none, _ => !hasPs
-             | some id, some pn => winRec id pn && 256 ≤ id
-             | some id, none => id == noPostscriptName)) "instance-name-missing-or-wrong"
+          let zipped := f.instances.zip (d.instances.zip instps)
+          let c := c.add (zipped.all fun ((sub, _, _), ((_, st, _), _)) => winRec sub (toS st)) "instance-name-missing-or-wrong"
+          let c := c.add (zipped.all fun ((sub, _, coords), _) => 256 ≤ sub || (coords == defaults && isSub sub)) "reserved-id-in-fvar"
+          -- read-fonts reports postScriptNameID 0xFFFF (and an absent field) as none
+          let c := c.add (zipped.all fun ((_, ps, _), (_, p)) =>
+            match ps, p with
+            | none, none => true
+            | none, some _ => false
+            | some id, some pn => winRec id pn && 256 ≤ id
+            | some id, none => hasPs && id == noPostscriptName) "instance-psname-missing-or-wrong"
           -- STAT
           match extra.field? "STAT" with
           | none => c.add false "variable-font-without-STAT"
